@@ -336,6 +336,11 @@ def check(ctx):
         tn, trefs, inst, ids = random_types(rng)
         tids = sorted(set(n[0] for n in tn))
         q = rng.sample(tids, min(len(tids), rng.randint(1, 3)))
+        if it % 10 == 5 and all(n_ in ids for n_ in ("HasSubtype", "HasModellingRule", "HierarchicalReferences")):
+            # HasModellingRule placed BELOW HierarchicalReferences (a hierarchy may put it anywhere): the modelling-rule split must still look at all references
+            hmr_, hier_ = ids["HasModellingRule"], ids["HierarchicalReferences"]
+            trefs = [r for r in trefs if not (r[1] == hmr_ and r[2] == ids["HasSubtype"])] + [[hier_, hmr_, ids["HasSubtype"]]]
+            if len(inst) >= 2: inst = inst + [[inst[0][1], inst[1][0], hmr_], [inst[1][1], inst[0][0], hmr_]]
         if it % 10 == 0 and "HasSubtype" in ids:
             # a reference type that sits in no HasSubtype reference but IS mentioned by a type reference (organised by a folder, say), queried itself
             lone = 180; tn = tn + [[lone, "UAReferenceType", "Lonely"]]; tids = tids + [lone]
